@@ -84,6 +84,14 @@ def inner_programs(tier):
     yield {"calls": a["calls"] + [["union", b], ["orderby", [A(ux, "zz")], "desc"]]}
     yield {"calls": a["calls"] + [["intersect", b2], ["orderby", [ux], "asc"], ["offset", 1], ["limit", 2]]}
     yield {"calls": a["calls"] + [["union_all", b], ["intersect", a2]]}
+    # set operations made with one operator only (pure UNION / pure UNION ALL chains) with and without their own tail
+    for op in ("union", "union_all"):
+        yield {"calls": a["calls"] + [[op, b]]}
+        yield {"calls": a["calls"] + [[op, b], ["orderby", [A(ux, "k")], "desc"], ["limit", 2]]}
+        yield {"calls": a["calls"] + [[op, b], [op, a2], ["offset", 1], ["limit", 2]]}
+    # locking clause on the inner query
+    yield {"calls": [["from", U], ["select", [ux]], ["where", ["cmp", "=", uy, raw(1)]], ["for_update", {}]]}
+    yield {"calls": [["from", U], ["select", [A(ux, "k")]], ["orderby", [ux], "asc"], ["limit", 2], ["for_update", {"skip_locked": True}]]}
     yield from _with_inner_programs()
 
 
@@ -226,6 +234,16 @@ def p_setop_chain_mid(Q, I):
     return Q.from_(t).select(t.a).intersect(I).union_all(Q.from_(w).select(w.a)), "setop", None
 
 
+def p_setop_chain_right_all(Q, I):
+    t, w = _t(), Table("w")
+    return Q.from_(t).select(t.a).union_all(Q.from_(w).select(w.a)).union_all(I), "setop", None
+
+
+def p_setop_chain_three(Q, I):
+    t, w = _t(), Table("w")
+    return Q.from_(t).select(t.a).union(Q.from_(w).select(w.a)).union(Q.from_(w).select(w.b)).union(I), "setop", None
+
+
 def p_as_select(Q, I):
     return Query.create_table("n").as_select(I), "paren", None
 
@@ -272,7 +290,7 @@ def p_nested_from(Q, I):
 
 
 POS = {f.__name__[2:]: f for f in (p_from, p_from_auto, p_join, p_in, p_in_aliased, p_cmp_aliased, p_func_arg_aliased, p_select_in_aliased, p_join_on_value, p_not_in_aliased, p_and_or_in_aliased, p_select_case_in_aliased, p_notin, p_not_in, p_and_in, p_cmp, p_select_item,
-                                   p_select_item_aliased, p_cte, p_setop_right, p_setop_base, p_setop_chain_right, p_setop_chain_mid, p_as_select, p_update_from,
+                                   p_select_item_aliased, p_cte, p_setop_right, p_setop_base, p_setop_chain_right, p_setop_chain_right_all, p_setop_chain_three, p_setop_chain_mid, p_as_select, p_update_from,
                                    p_delete_in, p_insert_value, p_func_arg, p_case_then, p_having, p_join_on, p_nested_from)}
 
 
@@ -337,11 +355,11 @@ def run_case(case):
         return res
     res.nontrivial = 1
     res.states.append(h64(json.dumps([pos, ip], sort_keys=True)))
-    for param in (False, True):
+    for param, flags in ((False, {}), (True, {}), (False, {"as_keyword": True})):
         res.transitions += 2
         try:
-            s, sv = prog.render(I2, d, param=param)
-            o, ov = prog.render(outer, d, param=param)
+            s, sv = prog.render(I2, d, param=param, **flags)
+            o, ov = prog.render(outer, d, param=param, **flags)
         except Exception as e:
             if type(e).__name__ == "SetOperationException":
                 res.nontrivial = 0
